@@ -553,7 +553,7 @@ ASSUME = [
 
 CLAIM = dict(
     text='Machine-checked proof (Coq 8.16.1): for every position and every CIGAR (every list of uint32 words: the nine standard operations, B, and the undefined codes 10..15 which consume nothing), the models of Record.End/Len/Bin and Cigar.Lengths/IsValid '
-         '(loops hand-modelled statement by statement; Type/Len/NewCigarOp, Consumes and the consume table, BinFor and Record.Bin regenerated from the Go source on every run) equal the values the SAM '
+         '(loops hand-modelled statement by statement; Type/Len/NewCigarOp, Consumes and the consume table, BinFor, Record.Bin and the loop of csi.reg2bin regenerated from the Go source on every run, the latter proved equal to its hand model for every input) equal the values the SAM '
          'specification defines; BinFor/OverlappingBinsFor equal the C functions of SAMv1 5.3 and reg2bin/reg2bins equal the CSI functions for every (min_shift, depth<=10); '
          'for every overlapping pair of intervals the bin of one is in the bin list of the other (BAI and every CSI geometry, by monotonicity of x/2^s and induction on the level), '
          'bin lists are exactly the bins meeting the query; CSI(14,5) = BAI. Models are run against the implementation inside coqc on generated cases on every run.',
